@@ -69,6 +69,7 @@ Definition sstep (s : sspec) (x : op V) : option (sspec * out V) :=
       else if s_owners s =? 0 then Some (s, OBool false)
       else Some (s_handles s (s_kind s) (S (s_owners s)) (s_weaks s), OBool true)
   | HDropWeak => if s_weaks s =? 0 then None else Some (s_handles s (s_kind s) (s_owners s) (s_weaks s - 1), OUnit)
+  | HCloneWeak => if s_weaks s =? 0 then None else Some (s_handles s (s_kind s) (s_owners s) (S (s_weaks s)), OUnit)
   | HIntoShared => match s_kind s with Shared => None | Unique => need_owner (Some (s_handles s Shared 1 (s_weaks s), OUnit)) end
   | HCounts => need_owner (Some (s, OCounts (s_owners s) (s_live s) (s_owners s + s_live s) (s_weaks s)))
   end.
